@@ -696,6 +696,26 @@ def bounded(tier, seed):
         key = (path, vkind, cname, second_same)
         b.case(key, nontrivial=cred is not None)
         inp = {"path": path, "validator": vkind, "credential": cname, "header": None if cred is None else cred.decode("latin-1"), "second_same": second_same}
+        if path == "socks5":
+            # RFC 1929 carries user and password as two length-prefixed fields: no base64, no ':' ambiguity
+            if not second_same or (cred is not None and strict is None):
+                continue
+            try:
+                r = _run_socks5(opt, strict)
+            except Exception as e:
+                b.fail("auth.total", inp, f"raised {type(e).__name__}: {e}")
+                continue
+            want = strict is not None and accepts(*strict)
+            if r["handshake_ok"] != want:
+                b.fail("socks5.accepted_iff_validator_accepts", inp, f"pair {strict!r}: validator says {want}, handshake {'succeeded' if r['handshake_ok'] else 'failed'}")
+            if not r["handshake_ok"]:
+                if r["forwarded"] or r["opened"]:
+                    b.fail("socks5.rejected_nothing_forwarded", inp, f"{r['forwarded']!r} opened={r['opened']}")
+                if not (r["client_bytes"].endswith(b"\x01\x01") or r["client_bytes"].startswith(b"\x05\xff")) or not r["closed"]:
+                    b.fail("socks5.rejected_gets_failure_reply_and_close", inp, f"{r['client_bytes']!r} closed={r['closed']}")
+            elif b"x-probe: keep" not in r["forwarded"].lower():
+                b.fail("socks5.accepted_request_forwarded", inp, f"{r['forwarded']!r}")
+            continue
         try:
             res = _run_path(path, opt, cred, second_same)
         except Exception as e:
@@ -721,6 +741,22 @@ def bounded(tier, seed):
     return b
 
 
+def _run_socks5(opt, pair):
+    """SOCKS5 entry path: greeting (methods 0 and 2 offered when a pair is presented, else only 0), RFC 1929 sub-negotiation,
+    CONNECT request, then an HTTP request."""
+    p, pa = _mk_proxy("socks5", opt)
+    p.feed(b"\x05\x02\x00\x02" if pair is not None else b"\x05\x01\x00")
+    ok = False
+    if pair is not None and p.to_client() == b"\x05\x02":
+        u, pw = pair[0].encode(), pair[1].encode()
+        p.feed(b"\x01" + bytes([len(u)]) + u + bytes([len(pw)]) + pw)
+        ok = p.to_client().endswith(b"\x01\x00")
+    p.feed(b"\x05\x01\x00\x03\x0bexample.com\x00\x50")
+    p.feed(_request_bytes("socks5", None, 1)[0])
+    fw = b"".join(d for _, d in _forwarded_requests(p))
+    return dict(handshake_ok=ok, forwarded=fw, opened=len(p.servers), client_bytes=p.to_client(), closed=not p.client_alive())
+
+
 def _run_path(path, opt, cred, second_same):
     """Drive one client connection with two requests. Returns per-request observations."""
     p, pa = _mk_proxy(path, opt)
@@ -740,26 +776,6 @@ def _run_path(path, opt, cred, second_same):
         if handshake_ok:
             res[-1]["forwarded"] = b"(tunnel established) x-probe: keep"
         creds = [None, cred if second_same else None]     # inner requests: first without, second with/without credentials
-    elif path == "socks5":
-        p.feed(b"\x05\x02\x00\x02")
-        greeting = p.to_client()
-        if cred is not None and greeting == b"\x05\x02":
-            # RFC 1929 sub-negotiation carries user/password directly (no base64): use the strict reading, else raw bytes
-            strict, _ = _ref_pairs(cred)
-            u, pw = (strict[0].encode(), strict[1].encode()) if strict else (b"user", cred[:200])
-            p.feed(b"\x01" + bytes([len(u)]) + u + bytes([len(pw)]) + pw)
-            handshake_ok = p.to_client().endswith(b"\x01\x00")
-        if handshake_ok:
-            p.feed(b"\x05\x01\x00\x03\x0bexample.com\x00\x50")
-        creds = [None, None]
-        if not handshake_ok:
-            # nothing may be forwarded at all
-            before = len(p.to_client())
-            p.feed(b"\x05\x01\x00\x03\x0bexample.com\x00\x50")
-            p.feed(_request_bytes(path, None, 1)[0])
-            fw = b"".join(d for _, d in _forwarded_requests(p))
-            return [dict(forwarded=fw, has_cred_or_handshake=False, presented=False, client_status=p.to_client()[:8], challenged=(greeting in (b"\x05\x02", b"\x05\xff\x00\x01\x00\x00\x00\x00\x00\x00") or True) and not fw,
-                         cred_header_forwarded=False, client_bytes=p.to_client(), expect_open=False)] if not fw else [dict(forwarded=fw, has_cred_or_handshake=False, presented=False, client_status=b"", challenged=False, cred_header_forwarded=False, client_bytes=p.to_client(), expect_open=False)]
     else:
         creds = [cred, cred if second_same else None]
     for n, c in enumerate(creds, 1):
